@@ -347,3 +347,118 @@ Theorem factor_is_partial_derivative_wrt_x :
        o) 0 (W o).
 Proof. exact @GradFcP.fcY_dX. Qed.
 Print Assumptions factor_is_partial_derivative_wrt_x.
+
+(* ---- Appendix added in the second build session: the FC gradients in ANY graph (Proofs/GradChainFcP.v).  H extends the layer's heap by any later operations, r is any tracked root above the output y, no outside node has a back edge to the eight internal nodes: after bp_topo from r the FINAL gradients of W, B, x are prior + contributions of their consumers outside the layer + the dW/dB/dx formulas on y's FINAL gradient.  The layer's nodes are NOT a contiguous block of the order (instance): the lifting goes through the adjoint equations of C01 instead ---- *)
+From Qeep Require Import Model.Backprop Proofs.BackpropP.
+From Qeep Require Proofs.GradChainP Proofs.GradChainFcP.
+Theorem fc_gradients_in_any_graph :
+  forall (thr : R) (draw : bool -> nat -> R) (rd : bred) (h h1 H H' : @heap R) 
+    (w b x : nat) (name : option nat) (wv bv xv : tensor R) (O B F y r : nat)
+    (log : list (nat * tensor R)) (gy : tensor R),
+  @valOf R h w = @Some (tensor R) wv ->
+  @valOf R h b = @Some (tensor R) bv ->
+  @valOf R h x = @Some (tensor R) xv ->
+  @wf R wv ->
+  @wf R bv ->
+  @wf R xv ->
+  @dims R wv = [O] ->
+  @dims R bv = [O] ->
+  @dims R xv = [B; F] ->
+  @trackedOf R h w = true ->
+  @dirtyOf R h w = false ->
+  @trackedOf R h b = true ->
+  @dirtyOf R h b = false ->
+  @dirtyOf R h x = false ->
+  w <> b ->
+  @fc_forward R (R_scalar thr draw) h w b [@Some nat x] name = (h1, @Ok nat y) ->
+  let n := @length (@node R) h in
+  let ints :=
+    [n; S n; S (S n); S (S (S n)); S (S (S (S n))); S (S (S (S (S n)))); S (S (S (S (S (S n)))));
+     S (S (S (S (S (S (S n))))))] in
+  @GradChainP.prefS R h1 H ->
+  @rules_own R H ->
+  @wf_heap R H ->
+  @GradChainP.no_outside_edge R H y ints ->
+  @In nat y (@topoOrder R H r) ->
+  (forall c : nat, @In nat c ints -> @gradOf R H c = @None (tensor R)) ->
+  GradActP.prior_ok [O] (@gradOf R H w) ->
+  GradActP.prior_ok [O] (@gradOf R H b) ->
+  GradActP.prior_ok [B; F] (@gradOf R H x) ->
+  @bp_topo R (R_scalar thr draw) rd (fun (_ : option nat) (g : tensor R) => g) H r =
+  (H', log, @Ok unit tt) ->
+  @gradOf R H' y = @Some (tensor R) gy ->
+  @wf R gy ->
+  @dims R gy = [B; O] ->
+  let out := @GradChainP.outsideOf R H r y ints in
+  (forall g : tensor R,
+   @In (tensor R) g (@contributions R (R_scalar thr draw) rd H' H out w) -> @wf R g /\ @dims R g = [O]) ->
+  (forall g : tensor R,
+   @In (tensor R) g (@contributions R (R_scalar thr draw) rd H' H out b) -> @wf R g /\ @dims R g = [O]) ->
+  (forall g : tensor R,
+   @In (tensor R) g (@contributions R (R_scalar thr draw) rd H' H out x) ->
+   @wf R g /\ @dims R g = [B; F]) ->
+  y = S (S (S (S (S (S (S (S n))))))) /\
+  (exists gw : tensor R,
+     @gradOf R H' w = @Some (tensor R) gw /\
+     @dims R gw = [O] /\
+     @wf R gw /\
+     (forall o : nat,
+      (o < O)%nat ->
+      elt gw [o] =
+      GradActP.prior (@gradOf R H w) [o] +
+      GradChainP.sumC (@contributions R (R_scalar thr draw) rd H' H out w) [o] +
+      VjpGatherP.rdc rd B *
+      GradFcP.SumN B (fun bi : nat => elt gy [bi; o] * GradFcP.SumN F (fun d : nat => elt xv [bi; d])))) /\
+  (exists gb : tensor R,
+     @gradOf R H' b = @Some (tensor R) gb /\
+     @dims R gb = [O] /\
+     @wf R gb /\
+     (forall o : nat,
+      (o < O)%nat ->
+      elt gb [o] =
+      GradActP.prior (@gradOf R H b) [o] +
+      GradChainP.sumC (@contributions R (R_scalar thr draw) rd H' H out b) [o] +
+      VjpGatherP.rdc rd B * GradFcP.SumN B (fun bi : nat => elt gy [bi; o]))) /\
+  (@trackedOf R h x = true ->
+   exists gx : tensor R,
+     @gradOf R H' x = @Some (tensor R) gx /\
+     @dims R gx = [B; F] /\
+     @wf R gx /\
+     (forall bi d : nat,
+      (bi < B)%nat ->
+      (d < F)%nat ->
+      elt gx [bi; d] =
+      GradActP.prior (@gradOf R H x) [bi; d] +
+      GradChainP.sumC (@contributions R (R_scalar thr draw) rd H' H out x) [bi; d] +
+      GradFcP.SumN O (fun o : nat => elt gy [bi; o] * elt wv [o]))).
+Proof. exact @GradChainFcP.fc_backward_in_graph. Qed.
+Print Assumptions fc_gradients_in_any_graph.
+
+Theorem fc_nodes_are_not_a_block_instance :
+  forall draw : bool -> nat -> R,
+  @topoOrder R (GradChainFcP.GradChainFcExamples.fh1 draw) 11 =
+  [11%nat; 10%nat; 1%nat; 9%nat; 8%nat; 7%nat; 6%nat; 4%nat; 2%nat; 5%nat; 3%nat; 0%nat] /\
+  ~
+  (exists pre post : list nat,
+     @topoOrder R (GradChainFcP.GradChainFcExamples.fh1 draw) 11 = pre ++ @rev nat (seq 3 9) ++ post).
+Proof. exact @GradChainFcP.GradChainFcExamples.fc_order_ex. Qed.
+Print Assumptions fc_nodes_are_not_a_block_instance.
+
+Theorem fc_in_graph_instance :
+  forall draw : bool -> nat -> R,
+  @topoOrder R (GradChainFcP.GradChainFcExamples.fH draw) 13 =
+  [13%nat; 12%nat; 11%nat; 1%nat; 10%nat; 9%nat; 8%nat; 7%nat; 5%nat; 3%nat; 2%nat; 6%nat; 4%nat; 0%nat] /\
+  (exists (H' : @heap R) (log : list (nat * tensor R)) (gy gw gb gx : tensor R),
+     @bp_topo R (R_scalar 0 draw) RedSum (fun (_ : option nat) (g : tensor R) => g)
+       (GradChainFcP.GradChainFcExamples.fH draw) 13 = (H', log, @Ok unit tt) /\
+     @gradOf R H' 12 = @Some (tensor R) gy /\
+     @gradOf R H' 0 = @Some (tensor R) gw /\
+     @gradOf R H' 1 = @Some (tensor R) gb /\
+     @gradOf R H' 3 = @Some (tensor R) gx /\
+     (forall bi o : nat, (bi < 2)%nat -> (o < 2)%nat -> elt gy [bi; o] = 3) /\
+     elt gw [0%nat] = 90 /\
+     elt gw [1%nat] = 90 /\
+     elt gb [0%nat] = 6 /\
+     elt gb [1%nat] = 6 /\ elt gx [0%nat; 0%nat] = 15 /\ elt gx [1%nat; 1%nat] = 15).
+Proof. exact @GradChainFcP.GradChainFcExamples.fc_in_graph_ex. Qed.
+Print Assumptions fc_in_graph_instance.
